@@ -272,6 +272,13 @@ func (x *c20Extractor) callToken(c *ast.CallExpr) string {
 		return "?queueReloadRequest"
 	case "rollbackStagedReloadHandoff":
 		return "" // closes the staged generation; no reload flag involved
+	case "takeAbortMarker":
+		return "takeabort"
+	case "os.Remove", "os.Create":
+		if strings.Contains(arg(0), "AbortFile") {
+			return "?abortfile:" + fun // only takeAbortMarker / the clients touch the marker
+		}
+		return ""
 	}
 	if x.commTokens {
 		// retirement functions only (cmd/run.go waitForControlPlaneDrain /
@@ -717,8 +724,10 @@ func c20ExtractRegions(repo string) (*c20Regions, error) {
 		case *ast.GoStmt:
 			// the first goroutine of Run: listen + serve + the start-up progress write
 			if fl, ok := v.Call.Fun.(*ast.FuncLit); ok && !startupSeen && fl.Pos() < workerBody[0].Pos() {
-				startupSeen = true
-				fact("ctor startup " + x.litToken(fl))
+				if t := x.litToken(fl); t != "" {
+					startupSeen = true
+					fact("ctor startup " + t)
+				}
 			}
 		}
 		return true
